@@ -195,13 +195,25 @@ class Ctx(object):
                 return (rs, s.model()) if rs == 'sat' else (rs, None)
             finally:
                 s.pop()
-        s = z3.SolverFor(self.logic) if self.logic else z3.Solver()
-        s.set('timeout', timeout_ms or self.timeout_ms)
         cons = self.pc if full else self.slice_for(extra)
-        for c in cons: s.add(c)
-        s.add(extra)
+        total = timeout_ms or self.timeout_ms
+        # retry ladder: z3's search is sensitive to declaration order / seeds, and a query that
+        # normally takes milliseconds occasionally diverges; a short first attempt, then the same
+        # query with another seed and the assertions in reverse order, then the full budget.
+        # The verdict is whatever attempt answers first; 'unknown' only if every attempt is unknown.
+        ladder = [total] if total <= 20000 else [max(5000, total // 12), max(10000, total // 4), total]
         t0 = time.time()
-        r = s.check()
+        for attempt, tmo in enumerate(ladder):
+            s = z3.SolverFor(self.logic) if self.logic else z3.Solver()
+            s.set('timeout', int(tmo))
+            if attempt:
+                try: s.set('random_seed', attempt)
+                except z3.Z3Exception: pass
+            for c in (cons if attempt != 1 else list(reversed(cons))): s.add(c)
+            s.add(extra)
+            r = s.check()
+            if str(r) != 'unknown': break
+            if attempt + 1 < len(ladder): self.stats['retries'] = self.stats.get('retries', 0) + 1
         dt = time.time() - t0
         self.stats['queries'] += 1
         self.stats['solver_s'] += dt
